@@ -84,13 +84,15 @@ pub fn run(line: &str) -> String {
         // run handle_request on a helper thread with a watchdog
         let (tx, rx) = mpsc::channel();
         let h2 = handler.clone();
-        let h2b = handler.clone();
+        let done = Arc::new(std::sync::atomic::AtomicBool::new(false));
+        let done2 = done.clone();
         let tid = Arc::new(AtomicI32::new(0));
         let tid2 = tid.clone();
         let t = std::thread::spawn(move || {
             tid2.store(gettid(), Ordering::SeqCst);
             let mut g = h2.lock().unwrap();
             let r = g.as_mut().unwrap().handle_request();
+            done2.store(true, Ordering::SeqCst);
             let _ = tx.send(match r {
                 Ok(()) => "ok".to_string(),
                 Err(e) => format!("err.{}", err_class(&e)),
@@ -110,7 +112,7 @@ pub fn run(line: &str) -> String {
                     if n == 0 || t0.elapsed() > Duration::from_secs(5) {
                         break;
                     }
-                    if h2b.try_lock().is_ok() && t0.elapsed() > Duration::from_millis(2) {
+                    if done.load(Ordering::SeqCst) {
                         // handle_request is over (the handler lock is free again): nobody is going to read the rest
                         break;
                     }
